@@ -69,9 +69,11 @@ def check_l1(ctx) -> None:
     LINE = line_defs[0].targets[0].id if line_defs else 'line'
     # comment skip: the rest of the body runs under `not <line starts with a comment prefix>`
     skip = None
+    from gxstat.inline import module_consts, substitute
+    mconsts = module_consts(f.module.tree)
     for st in ast.walk(loop):
         if isinstance(st, ast.If):
-            lits = {c.value for c in ast.walk(st.test) if isinstance(c, ast.Constant) and isinstance(c.value, str)}
+            lits = {c.value for c in ast.walk(substitute(st.test, mconsts)) if isinstance(c, ast.Constant) and isinstance(c.value, str)}
             if lits & COMMENT_PREFIXES and f'{LINE}.startswith' in norm(st.test):
                 skip = (st, lits)
                 break
